@@ -209,4 +209,31 @@ theorem pStageAll_toks (s : Stage) (hw : wfStage s = true) : pStageAll (toksStag
   rw [List.append_nil] at h
   simp only [pStageAll, h]
 
+/-! ## examples (used by the non-vacuity statements of Props/C09.lean) -/
+
+open Martian.FormatDecl (sInt sPath sFloat sBool) in
+/-- the example of the non-vacuity statements: `stage S(in int a "h", in path[] b…(31 bytes),
+out float, out map<json.gz[]>[] x "h…(21 bytes)" "o", src comp "bin/x -a b",) split (in int chunk
+"c", out bool "" "on",) using (mem_gb = -0.5, special = "hi", threads = 1e+06, vmem_gb = 1.5,
+volatile = strict,) retain (x, retain,)` -/
+def exampleStage : Stage :=
+  { id := [0x53],
+    ins := [⟨⟨⟨[sInt], 0, 0⟩, [0x61], [0x68], []⟩, false⟩,
+            ⟨⟨⟨[sPath], 1, 0⟩, List.replicate 31 0x62, [], []⟩, false⟩],
+    outs := [⟨⟨⟨[sFloat], 0, 0⟩, sDefault, [], []⟩, true⟩,
+             ⟨⟨⟨[[0x6A, 0x73, 0x6F, 0x6E], [0x67, 0x7A]], 1, 2⟩, [0x78], List.replicate 21 0x68, [0x6F]⟩, true⟩],
+    lang := .comp, path := [0x62, 0x69, 0x6E, 0x2F, 0x78], args := [[0x2D, 0x61], [0x62]],
+    split := true,
+    chunkIns := [⟨⟨⟨[sInt], 0, 0⟩, [0x63, 0x68, 0x75, 0x6E, 0x6B], [0x63], []⟩, false⟩],
+    chunkOuts := [⟨⟨⟨[sBool], 0, 0⟩, sDefault, [], [0x6F, 0x6E]⟩, true⟩],
+    res := some ⟨some (-512), some [0x68, 0x69], some [0x31, 0x65, 0x2B, 0x30, 0x36], some 1536, some true⟩,
+    retain := some [[0x78], sRetain] }
+
+open Martian.FormatDecl (sPath sFloat) in
+/-- the same stage with an id of 30 and a help text of 20 bytes: at the thresholds, not over them -/
+def exampleStage30 : Stage :=
+  { exampleStage with
+    ins := [⟨⟨⟨[sPath], 1, 0⟩, List.replicate 30 0x62, [], []⟩, false⟩],
+    outs := [⟨⟨⟨[sFloat], 0, 0⟩, [0x78], List.replicate 20 0x68, [0x6F]⟩, true⟩] }
+
 end Martian.FormatStage
